@@ -267,8 +267,8 @@ class Builder:
 
     def count_domain(self, user: str) -> list[Any]:
         pool = list(COUNT_POOL)
-        if user != "t":
-            pool.remove(None)  # ngettext/npgettext raise LiquidTypeError, the tag a TypeError: no lookup at all
+        if user not in ("t", "tag"):
+            pool.remove(None)  # ngettext/npgettext raise LiquidTypeError: no lookup at all (the tag counts nil as 1)
         if "count-zero" in self.disabled:
             pool.remove(0)
         if user == "t" and "count-one" in self.disabled:
@@ -280,7 +280,7 @@ class Builder:
     def emit_count(self, user: str, how: str | None = None) -> list[Any]:
         """Emit a count expression; returns the count record."""
         pool = self.count_domain(user)
-        how = how or self.ch.pick(["var", "var", "lit", "lit", "str"])
+        how = how or self.ch.pick(["var", "var", "lit", "lit", "str"] + (["nil"] if user == "tag" else []))
         if how == "lit":
             v = self.ch.pick([p for p in pool if isinstance(p, int)])
             self.emit(str(v))
